@@ -208,18 +208,9 @@ def reviewed : List (String × List Entry) :=
       .drainedBy "the handler's `for … := range ch` copy loop: handler_loops_read_to_close"⟩,
     ⟨"send", "QueryRangeService.QueryInstant#2", "res <- model.QueryRangeOutput{Str: string(stream.Buffer())}",
       .drainedBy "the handler's `for … := range ch` copy loop: handler_loops_read_to_close"⟩]),
-  ("service/queryRangeService.go:QueryRangeService.Tail#1",
-   [⟨"dyn", "QueryRangeService.Tail#1", "cancel",
-      .harmless "a context.CancelFunc: never nil here (result of context.WithCancel), calling it twice is allowed"⟩,
-    ⟨"close", "QueryRangeService.Tail#1", "close(res.GetRes())",
-      .ownChannel⟩,
-    ⟨"index", "QueryRangeService.Tail#1", "sqlQuery[0]",
-      .contract "logql_transpiler_v2.Transpile returns a one-element chain whenever err == nil (checked before the goroutine starts)"⟩,
-    ⟨"send", "onErr", "res <- model.QueryRangeOutput{Str: \"]}}\", Err: err}",
-      .drainedBy "QueryRangeController.Tail: select loop, on exit a deferred drainer goroutine + watcher.Close(): handler_loops_read_to_close"⟩,
-    ⟨"send", "QueryRangeService.Tail#1", "res.GetRes() <- model.QueryRangeOutput{Str: string(stream.Buffer())}",
-      .drainedBy "QueryRangeController.Tail: select loop, on exit a deferred drainer goroutine + watcher.Close(): handler_loops_read_to_close"⟩]),
   ("service/queryRangeService.go:QueryRangeService.Tail#2",
+   []),
+  ("service/queryRangeService.go:QueryRangeService.Tail#3",
    []),
   ("service/tempoService.go:TempoService.Tags#1",
    [⟨"close", "TempoService.Tags#1", "close(res)",
@@ -325,17 +316,14 @@ def reviewedExterns : List (String × String) :=
    ("?.Do", "http.DefaultClient.Do in the log shipper (not started by a request)"),
    ("?.Done", "ctx.Done() / Watcher.Done(): returns a channel"),
    ("?.Format", "logrus formatter in the log shipper (not started by a request)"),
-   ("?.GetRes", "Watcher.GetRes: returns the channel field"),
    ("?.Lock", "sync.Mutex"),
    ("?.Next", "rows.Next (database/sql)"),
    ("?.Ping", "ServiceData.Ping in the watchdog (not started by a request)"),
-   ("?.Process", "the planner chain's synchronous part, called by Tail#1 once per tick: explored through the websocket endpoint, NOT covered by a theorem for this goroutine (for query_range the same call runs under the handler's recover)"),
    ("?.ReadMessage", "gorilla/websocket read loop of the Tail handler: errors end the loop"),
    ("?.Reset", "jsoniter.Stream.Reset(nil)"),
    ("?.ReturnStream", "jsoniter pool"),
    ("?.Scan", "rows.Scan (database/sql): conversion failures are returned as errors"),
    ("?.Set", "http.Header.Set in the log shipper"),
-   ("?.Stop", "time.Ticker.Stop"),
    ("?.String", "logrus.Level.String"),
    ("?.UnixNano", "time.Time.UnixNano"),
    ("?.Unlock", "sync.Mutex: every Unlock follows its Lock in the same block"),
@@ -351,7 +339,6 @@ def reviewedExterns : List (String × String) :=
    ("?.cancel", "Watcher.cancel (a context.CancelFunc), reached through the by-name match of rows.Close with Watcher.Close"),
    ("atomic.StoreInt32", "sync/atomic on a package variable"),
    ("bytes.NewReader", "total"),
-   ("dbVersion.GetVersionInfo", "reader/utils/dbVersion: rows.Scan into locals, map writes into a map literal under the package mutex; errors returned"),
    ("fmt.Println", "total"),
    ("fmt.Sprintf", "total (a bad verb prints %!v, never panics; arguments are ints, floats, strings)"),
    ("http.NewRequest", "log shipper: error dropped, nil request tested"),
@@ -364,11 +351,8 @@ def reviewedExterns : List (String × String) :=
    ("strconv.ParseInt", "errors returned"),
    ("strings.Contains", "total"),
    ("strings.TrimSuffix", "total"),
-   ("tables.PopulateTableNames", "reader/utils/tables: assigns table-name fields of the context"),
-   ("time.NewTicker", "panics only for a non-positive period: the argument is the constant time.Second"),
    ("time.Now", "total"),
-   ("time.Sleep", "total"),
-   ("time.Unix", "total")
+   ("time.Sleep", "total")
   ]
 
 abbrev Site := String × String × String × List String
